@@ -371,7 +371,8 @@ where
         let (props, property_length) = Properties::parse(&data[cursor..])?;
         cursor += property_length;
         validate_unsuback_properties(&props)?;
-        let prop_len = VariableByteInteger::from_u32(props.size() as u32).unwrap();
+        let prop_len =
+            VariableByteInteger::from_len(props.size()).map_err(|_| MqttError::MalformedPacket)?;
 
         let mut reason_codes_buf = Vec::new();
         while cursor < data.len() {
@@ -386,7 +387,8 @@ where
         }
 
         let remaining_size = buffer_size + property_length + reason_codes_buf.len();
-        let remaining_length = VariableByteInteger::from_u32(remaining_size as u32).unwrap();
+        let remaining_length = VariableByteInteger::from_len(remaining_size)
+            .map_err(|_| MqttError::MalformedPacket)?;
 
         let unsuback = GenericUnsuback {
             fixed_header: [FixedHeader::Unsuback as u8],
